@@ -90,8 +90,10 @@ def lay_out(rng, root, blobs):
         elif g == "z1":
             z = os.path.join(root, "z1.zip")
             with zipfile.ZipFile(z, "w") as zf:
+                dot = rng.random() < 0.3            # members stored with a leading ./ (legal, some archivers write them)
                 for n, (i, b) in enumerate(items):
-                    zf.writestr("cov/lcov.info" if (same_name and n == 0) else "in/c%d.info" % i, b)
+                    nm = "cov/lcov.info" if (same_name and n == 0) else "in/c%d.info" % i
+                    zf.writestr(("./" + nm) if dot else nm, b)
             args.append(z)
         else:
             for i, b in items:
